@@ -50,16 +50,38 @@ VARIABLE c               \* the case
 \*                     are filtered, pkawa::handle_trailer);
 \*  TrailerCorr        the correlation header sent as an HTTP/2 trailer reaches the backend (handle_trailer
 \*                     filters four fixed names, not the configured correlation header name).
-AllDeviations == {"H1TrailerIdentity", "TrailerCorr", "NominatedToH2"}
-ASSUME Deviations \subseteq AllDeviations /\ CheckDeviations \subseteq AllDeviations
+\*
+\* NominatedToH2 is the SAME code defect in both directions (one converter): a field nominated by the
+\* BACKEND's Connection header reaches an HTTP/2 client. It covers ONLY fields whose sole reason to be
+\* connection-specific is that nomination: a field of the fixed list below stays dropped with the switch on.
+\*
+\* Self-test switches (never open findings, never used for predictions): they model the defect CLASS
+\* "a field of the fixed connection-specific list crosses into HTTP/2" and TLC must refute each:
+\*  ConnFieldToH2Backend  the converter toward an HTTP/2 BACKEND lets one fixed-list name through
+\*                        (a gap in its first-byte pre-filter: Proxy-Connection);
+\*  ConnFieldToH2Client   the converter toward an HTTP/2 CLIENT lets one fixed-list name through
+\*                        (Keep-Alive in a response of an HTTP/1.1 backend).
+OpenDeviations == {"H1TrailerIdentity", "TrailerCorr", "NominatedToH2"}
+SelfTestDeviations == {"ConnFieldToH2Backend", "ConnFieldToH2Client"}
+AllDeviations == OpenDeviations \cup SelfTestDeviations
+ASSUME Deviations \subseteq OpenDeviations /\ CheckDeviations \subseteq AllDeviations
 
 ---------------------------------------------------------------------------
 (* Alphabets *)
 
+\* Connection-specific names: EVERY name the RFCs and sozu's code list has a token, in both directions:
+\*   request   Connection (close | keep-alive | x-hop | "Upgrade, HTTP2-Settings"), Keep-Alive, Proxy-Connection,
+\*             Transfer-Encoding (the request is sent chunked on HTTP/1.1), Upgrade, TE (trailers | gzip),
+\*             HTTP2-Settings, and X-Hop (connection-specific only when nominated);
+\*   response  Connection (close | x-rhop), Keep-Alive, Proxy-Connection, Transfer-Encoding (the backend answers
+\*             chunked), Upgrade, and X-Rhop (connection-specific only when nominated).
+\* The harness spells every name in lower / upper / mixed case on HTTP/1.1 legs (requests AND responses).
 ReqTokens == {"a1", "a2", "hop", "ckO", "ckS", "ckB", "ckD", "xff", "fwd", "xri", "xfproto", "xfport",
-              "rid1", "rid2", "corr", "cClose", "cKA", "cHop", "teTr", "teGz", "upg"}
+              "rid1", "rid2", "corr", "cClose", "cKA", "cHop", "teTr", "teGz", "upg",
+              "pconn", "ka", "h2s", "cUpg", "tenc"}
 TrTokens  == {"tPlain", "tXri", "tXff", "tFwd", "tRid", "tCorr"}
-RespTokens == {"r1", "r2", "sc", "sts", "rcorr", "rClose"}
+RespTokens == {"r1", "r2", "sc", "sts", "rcorr", "rClose",
+               "rKA", "rPconn", "rUpg", "rTenc", "rCHop", "rHop"}
 
 Name(t) ==
   CASE t \in {"a1", "a2"}          -> "x-a"
@@ -71,9 +93,14 @@ Name(t) ==
     [] t = "xfport"                -> "x-forwarded-port"
     [] t \in {"rid1", "rid2", "tRid"} -> "x-request-id"
     [] t \in {"corr", "tCorr", "rcorr"} -> "CORR"
-    [] t \in {"cClose", "cKA", "cHop", "rClose"} -> "connection"
+    [] t \in {"cClose", "cKA", "cHop", "cUpg", "rClose", "rCHop"} -> "connection"
     [] t \in {"teTr", "teGz"}      -> "te"
-    [] t = "upg"                   -> "upgrade"
+    [] t \in {"upg", "rUpg"}       -> "upgrade"
+    [] t \in {"pconn", "rPconn"}   -> "proxy-connection"
+    [] t \in {"ka", "rKA"}         -> "keep-alive"
+    [] t \in {"tenc", "rTenc"}     -> "transfer-encoding"
+    [] t = "h2s"                   -> "http2-settings"
+    [] t = "rHop"                  -> "x-rhop"
     [] t = "tPlain"                -> "x-t"
     [] t \in {"r1", "r2"}          -> "x-r"
     [] t = "sc"                    -> "set-cookie"
@@ -92,6 +119,13 @@ Crumbs(t) == CASE t = "ckO" -> <<"o1">>
 \* RFC 9113 8.2.2 connection-specific fields; "te" only with a value other than "trailers"
 ConnSpecificNames == {"connection", "proxy-connection", "transfer-encoding", "upgrade", "keep-alive"}
 IsConnSpecificTok(t) == Name(t) \in ConnSpecificNames \/ t = "teGz"
+\* what must never be written on an HTTP/2 leg: the list above plus HTTP2-Settings (RFC 7540 3.2.1: a
+\* connection option of the h2c upgrade, meaningless beyond the hop; the converter lists it too). An HTTP/2
+\* REQUEST carrying it is not malformed (FrontRejects uses the RFC 9113 list only).
+NoCrossNames == ConnSpecificNames \cup {"http2-settings"}
+IsNoCrossTok(t) == Name(t) \in NoCrossNames \/ t = "teGz"
+\* response tokens only an HTTP/1.1 backend can send (from an HTTP/2 backend they are malformed: C02's domain)
+H1OnlyRespTokens == {"rClose", "rKA", "rPconn", "rUpg", "rTenc", "rCHop"}
 
 IdentityNames == {"x-real-ip", "x-forwarded-for", "forwarded", "x-request-id", "CORR"}
 
@@ -182,11 +216,19 @@ FrontendReqEdits(k, hs) ==
     [] k.edits = "set" -> hs \o << El("x-op", <<Sym("LIT", "opv")>>, "op") >>
     [] OTHER -> hs
 
-\* H2BlockConverter: connection-specific fields do not cross into HTTP/2
-Nominated(req) == IF Has(req, {"cHop"}) THEN {"x-hop"} ELSE {}
-DropOnH2(D, req, e) ==
-  \/ e.n \in ConnSpecificNames
+\* H2BlockConverter: connection-specific fields do not cross into HTTP/2.
+\* Nominated: the field names listed by the message's own Connection header(s) (RFC 9110 7.6.1).
+Nominated(req) == (IF Has(req, {"cHop"}) THEN {"x-hop"} ELSE {})
+             \cup (IF Has(req, {"cUpg"}) THEN {"upgrade", "http2-settings"} ELSE {})
+             \cup (IF Has(req, {"cKA"}) THEN {"keep-alive"} ELSE {})
+NominatedResp(resp) == IF Has(resp, {"rCHop"}) THEN {"x-rhop"} ELSE {}
+\* the fixed list of the converter (its first-byte pre-filter + is_connection_specific_header), minus the
+\* name a self-test switch lets through
+FixedDrop(gap, e) ==
+  \/ (e.n \in NoCrossNames /\ e.n \notin gap)
   \/ (e.n = "te" /\ e.v = <<Tok("teGz")>>)
+DropOnH2(D, req, e) ==
+  \/ FixedDrop(IF "ConnFieldToH2Backend" \in D THEN {"proxy-connection"} ELSE {}, e)
   \/ ("NominatedToH2" \notin D /\ e.n \in Nominated(req))
 BackConvert(D, k, req, hs) ==
   IF k.back = "h2c" THEN SelectSeq(hs, LAMBDA e : ~DropOnH2(D, req, e)) ELSE hs
@@ -233,12 +275,17 @@ FrontendRespEdits(k, resp, hs) ==
                   THEN << El("strict-transport-security", <<Sym("HSTS", "listener")>>, "proxy") >> ELSE <<>>
   IN afterDel \o opSet \o hstsAdd
 
-FrontConvert(k, hs) ==
-  IF k.fp.front = "h2" THEN SelectSeq(hs, LAMBDA e : e.n \notin ConnSpecificNames) ELSE hs
+\* the same converter toward an HTTP/2 client
+DropOnH2Resp(D, resp, e) ==
+  \/ FixedDrop(IF "ConnFieldToH2Client" \in D THEN {"keep-alive"} ELSE {}, e)
+  \/ ("NominatedToH2" \notin D /\ e.n \in NominatedResp(resp))
+FrontConvert(D, k, resp, hs) ==
+  IF k.fp.front = "h2" THEN SelectSeq(hs, LAMBDA e : ~DropOnH2Resp(D, resp, e)) ELSE hs
 
-EditResponse(k, req, resp) ==
-  [hdrs |-> FrontConvert(k, FrontendRespEdits(k, resp, RespEditor(k, req, resp))),
+EditResponseD(D, k, req, resp) ==
+  [hdrs |-> FrontConvert(D, k, resp, FrontendRespEdits(k, resp, RespEditor(k, req, resp))),
    may  |-> StickyMay(k, req)]            \* elements that may additionally be present (at most once each)
+EditResponse(k, req, resp) == EditResponseD(Deviations, k, req, resp)
 
 ---------------------------------------------------------------------------
 (* The property *)
@@ -258,7 +305,7 @@ EndToEndTokens(k, req) ==
   SelectSeq(req, LAMBDA t : /\ t \notin CookieTokens
                             /\ Name(t) \notin MetaNames
                             /\ ~(k.edits = "del" /\ Name(t) = "x-a")
-                            /\ ~(k.back = "h2c" /\ (IsConnSpecificTok(t) \/ Name(t) \in Nominated(req))))
+                            /\ ~(k.back = "h2c" /\ (IsNoCrossTok(t) \/ Name(t) \in Nominated(req))))
 ClientTokensOf(hs) == LET cs == SelectSeq(hs, LAMBDA e : e.src = "client" /\ e.n \notin MetaNames) IN [i \in DOMAIN cs |-> cs[i].v[1].x]
 
 \* every address / scheme / port in a proxy-added element is the true one
@@ -287,7 +334,7 @@ SpoofFree(k, req, hs) ==
   /\ ~Has(req, {"xfport"})  => Count(hs, "x-forwarded-port") = 1
 
 NoConnSpecificOnH2(k, req, hs) ==
-  k.back = "h2c" => \A i \in DOMAIN hs : /\ hs[i].n \notin ConnSpecificNames
+  k.back = "h2c" => \A i \in DOMAIN hs : /\ hs[i].n \notin NoCrossNames
                                           /\ hs[i].v # <<Tok("teGz")>>
                                           /\ hs[i].n \notin Nominated(req)
 
@@ -310,21 +357,23 @@ AllowedRespAdditions(k, req, resp) ==
      {El("CORR", <<IdAtom>>, "proxy")}
   \cup (IF k.hsts /\ ~Has(resp, {"sts"}) THEN {El("strict-transport-security", <<Sym("HSTS", "listener")>>, "proxy")} ELSE {})
   \cup (IF k.edits = "set" THEN {El("x-rop", <<Sym("LIT", "ropv")>>, "op")} ELSE {})
-P_Response(k, req, resp) ==
-  LET o == EditResponse(k, req, resp)
+P_Response(D, k, req, resp) ==
+  LET o == EditResponseD(D, k, req, resp)
       backendEls == SelectSeq(o.hdrs, LAMBDA e : e.src = "backend")
       kept == SelectSeq(resp, LAMBDA t : /\ ~(k.edits = "del" /\ Name(t) = "x-r")
-                                         /\ ~(k.fp.front = "h2" /\ IsConnSpecificTok(t)))
+                                         /\ ~(k.fp.front = "h2" /\ (IsNoCrossTok(t) \/ Name(t) \in NominatedResp(resp))))
   IN /\ [i \in DOMAIN backendEls |-> backendEls[i].v[1].x] = kept
      /\ {o.hdrs[i] : i \in {j \in DOMAIN o.hdrs : o.hdrs[j].src # "backend"}} = AllowedRespAdditions(k, req, resp)
      /\ Cardinality({j \in DOMAIN o.hdrs : o.hdrs[j].src # "backend"}) = Cardinality(AllowedRespAdditions(k, req, resp))
-     /\ k.fp.front = "h2" => \A i \in DOMAIN o.hdrs : o.hdrs[i].n \notin ConnSpecificNames
+     \* connection-specific fields never cross into HTTP/2: responses of HTTP/1.1 backends too
+     /\ k.fp.front = "h2" => \A i \in DOMAIN o.hdrs : /\ o.hdrs[i].n \notin NoCrossNames
+                                                       /\ o.hdrs[i].n \notin NominatedResp(resp)
      \* the only optional addition is the cluster's sticky cookie, and only where one is due
      /\ \A i \in DOMAIN o.may : /\ o.may[i] = El("set-cookie", <<Sym("STICKYSET", k.stickyName)>>, "proxy")
                                 /\ k.stickyCluster /\ StickyFound(k, req) # "good"
 
 P_Case(D, s) == /\ P_Request(D, s.k, s.req, s.tr)
-                /\ (~FrontRejects(s.k, s.req) => P_Response(s.k, s.req, s.resp))
+                /\ (~FrontRejects(s.k, s.req) => P_Response(D, s.k, s.req, s.resp))
 P_C13 == P_Case(CheckDeviations, c)
 
 ---------------------------------------------------------------------------
@@ -370,7 +419,8 @@ Init == c \in    {Case("base", 0, k) : k \in Configs}
 
 Next ==
   \/ /\ c.f = "req" /\ Len(c.req) < c.L
-     /\ \E t \in ReqTokens : c' = [c EXCEPT !.req = Append(@, t)]
+     /\ \E t \in ReqTokens : (t = "tenc" => ~Has(c.req, {"tenc"}))     \* a message has ONE framing (C03's domain)
+                              /\ c' = [c EXCEPT !.req = Append(@, t)]
   \/ /\ c.f = "tr" /\ c.tr = <<>> /\ Len(c.req) < 1
      /\ \E t \in ReqTokens : c' = [c EXCEPT !.req = Append(@, t)]
   \/ /\ c.f = "tr" /\ Len(c.tr) < MaxTr
@@ -378,7 +428,8 @@ Next ==
   \/ /\ c.f = "resp" /\ c.req = <<>> /\ c.resp = <<>>
      /\ \E r \in ReqFocusReqs \ {<<>>} : c' = [c EXCEPT !.req = r]
   \/ /\ c.f = "resp" /\ Len(c.resp) < MaxResp
-     /\ \E t \in RespTokens : (c.k.back = "h2c" => t # "rClose")     \* invalid HTTP/2 from a backend: C02's domain
+     /\ \E t \in RespTokens : (c.k.back = "h2c" => t \notin H1OnlyRespTokens)   \* invalid HTTP/2 from a backend: C02's domain
+                               /\ (t = "rTenc" => ~Has(c.resp, {"rTenc"}))
                                /\ c' = [c EXCEPT !.resp = Append(@, t)]
 Spec == Init /\ [][Next]_c
 
@@ -412,17 +463,35 @@ Selected(s) == Complete(s) /\ Hash(s) % SampleMod = SampleRes % SampleMod
 \* by TLC at start-up (the thorough tier also re-runs the whole model check with the deviation on).
 WitnessCfg == [fp |-> [front |-> "h1", tls |-> FALSE], back |-> "h2c", peer |-> "v4", elide |-> TRUE, send |-> TRUE,
                corrName |-> "custom", stickyName |-> "default", stickyCluster |-> FALSE, edits |-> "none", hsts |-> FALSE]
+WitnessH2H1 == [WitnessCfg EXCEPT !.fp = [front |-> "h2", tls |-> TRUE], !.back = "h1"]
 Witness(d) ==
   CASE d = "NominatedToH2"     -> [k |-> WitnessCfg, req |-> <<"cHop", "hop">>, tr |-> <<>>, resp |-> <<>>]
     [] d = "H1TrailerIdentity" -> [k |-> WitnessCfg, req |-> <<>>, tr |-> <<"tXri">>, resp |-> <<>>]
     [] d = "TrailerCorr"       -> [k |-> [WitnessCfg EXCEPT !.fp = [front |-> "h2", tls |-> TRUE]], req |-> <<>>, tr |-> <<"tCorr">>, resp |-> <<>>]
+    [] d = "ConnFieldToH2Backend" -> [k |-> WitnessCfg, req |-> <<"pconn">>, tr |-> <<>>, resp |-> <<>>]
+    [] d = "ConnFieldToH2Client"  -> [k |-> WitnessH2H1, req |-> <<>>, tr |-> <<>>, resp |-> <<"rKA">>]
 ASSUME \A d \in AllDeviations : P_Case({}, Witness(d)) /\ ~P_Case({d}, Witness(d))
+\* NominatedToH2 has a second face (response direction) ...
+ASSUME LET w == [k |-> WitnessH2H1, req |-> <<>>, tr |-> <<>>, resp |-> <<"rCHop", "rHop">>]
+       IN P_Case({}, w) /\ ~P_Case({"NominatedToH2"}, w)
+\* ... and is NARROW: with it on, every field of the fixed list still never reaches HTTP/2, also when a
+\* Connection header happens to nominate it - so a leak of such a field is never explained by the open finding.
+NarrowReqs == { <<"pconn">>, <<"ka">>, <<"h2s">>, <<"upg">>, <<"tenc">>, <<"teGz">>, <<"cClose">>,
+                <<"cKA", "ka">>, <<"cUpg", "upg">>, <<"cUpg", "h2s">>, <<"cHop", "pconn">>, <<"cHop", "hop", "ka">> }
+NarrowResps == { <<"rClose">>, <<"rKA">>, <<"rPconn">>, <<"rUpg">>, <<"rTenc">>, <<"rCHop", "rKA">>, <<"rCHop", "rHop", "rPconn">> }
+ASSUME \A r \in NarrowReqs :
+         LET o == EditRequestD({"NominatedToH2"}, WitnessCfg, r, <<>>)
+         IN \A i \in DOMAIN o.hdrs : o.hdrs[i].n \notin NoCrossNames /\ o.hdrs[i].v # <<Tok("teGz")>>
+ASSUME \A r \in NarrowResps :
+         LET o == EditResponseD({"NominatedToH2"}, WitnessH2H1, <<>>, r)
+         IN \A i \in DOMAIN o.hdrs : o.hdrs[i].n \notin NoCrossNames
 
 \* which open deviations shape the prediction of this case (for the evidence: known findings seen in replay)
 DevRelevant(d, s) ==
   /\ d \in Deviations
   /\ ~FrontRejects(s.k, s.req)
-  /\ CASE d = "NominatedToH2"     -> s.k.back = "h2c" /\ Has(s.req, {"cHop"}) /\ Has(s.req, {"hop"})
+  /\ CASE d = "NominatedToH2"     -> ((s.k.back = "h2c" /\ Has(s.req, {"cHop"}) /\ Has(s.req, {"hop"}))
+                                       \/ (s.k.fp.front = "h2" /\ Has(s.resp, {"rCHop"}) /\ Has(s.resp, {"rHop"})))
        [] d = "H1TrailerIdentity" -> s.k.fp.front = "h1" /\ \E i \in DOMAIN s.tr : Name(s.tr[i]) \in IdentityNames
        [] d = "TrailerCorr"       -> s.k.fp.front = "h2" /\ Has(s.tr, {"tCorr"})
        [] OTHER -> FALSE
